@@ -203,7 +203,15 @@ def py_directive(d, width, prec, v):
         if v[0] != "n":
             return ("err",)
         if conv == "o" and "#" in flags:
-            return ("skip", "#o prefix: Python prints 0o, C prints 0")
+            # Python prints 0o; C: '#' raises the precision just enough to force a leading 0
+            t = trunc_of(v)
+            p2 = prec if d["p"] is not None else 0
+            if t != 0:
+                p2 = max(p2, len("%o" % abs(t)) + 1)
+            spec2 = "%" + flags.replace("#", "") + (str(width) if d["w"] is not None else "")
+            if t != 0 or d["p"] is not None:
+                spec2 += ".%d" % p2
+            return ("exact", (spec2 + "o") % t)
         return ("exact", (spec + conv) % trunc_of(v))
     if conv in "eEfF":
         if v[0] != "n":
@@ -367,6 +375,11 @@ def exact_exp10(av):
     return e
 
 
+# %g of 1e-4 <= |x| < 1 keeps fewer significant digits than C/Python (upstream Jsonnet convention).
+# False: counted in the evidence ("g_fewer_significant_digits_than_C"); True: a violation.
+G_RELATIVE_STRICT = False
+G_SHORT = []
+
 G_RE = re.compile(r"([-+ ]?)([0-9]+)(\.[0-9]*)?(?:([eE])([-+][0-9]{2,}))?\Z")
 
 
@@ -414,7 +427,14 @@ def shape_g(d, width, prec, v, text):
         bound = Fraction(1, 2) * Fraction(10) ** (max(e, 0) - P1 + 1)
     if abs(val - av) > bound:
         return "value off by more than half a unit of digit %d" % P1
-    # zero padding must sit between sign and digits only when 0 is set without -
+    # C / Python: P1 significant digits, i.e. half a unit of the P1-th digit of the value itself.
+    # Jsonnet (std.jsonnet and this code alike) counts the digits from the units place when
+    # |x| < 1 ("%.3g" % 0.0001234 = "0", "%g" % 0.0001234 = "0.00012"): reported, not failed,
+    # unless G_RELATIVE_STRICT is switched on.
+    if abs(val - av) > Fraction(1, 2) * Fraction(10) ** (e - P1 + 1) * Fraction(1000001, 1000000):
+        G_SHORT.append((d["conv"], prec, v[1]))
+        if G_RELATIVE_STRICT:
+            return "fewer than %d significant digits (C/Python print them)" % P1
     return None
 
 
@@ -771,10 +791,13 @@ def run(rep):
         "parameters of the model; the harness supplies the strings Rust produced (fmt host)",
         "model: f64::to_string of an integer-valued double below 2^53 is its exact decimal expansion "
         "(checked on every such case by the Python oracle)",
-        "Python oracle exclusions (conventions do not coincide): '#o' (Python 0o, C 0), '%%' with a width, "
+        "'#o': Python prints 0o, so the C rule (precision raised to force a leading 0) is applied on top of Python's %o",
+        "Python oracle exclusions (conventions do not coincide): '%%' with a width, "
         "precision on %s/%c (Jsonnet ignores it), %d of |x| >= 2^53 (host prints shortest round-trip digits; "
         "shape invariant instead), %g/%G (Jsonnet decides the style before rounding; value/shape invariant instead), "
-        "negative zero with e/E/f/F (Jsonnet prints no sign: compared with Python on +0), negative '*' width or "
+        "negative zero with e/E/f/F (Jsonnet prints no sign: compared with Python on +0), %g of 1e-4 <= |x| < 1 "
+        "(Jsonnet counts the precision from the units digit: '%.3g' % 0.0001234 = '0'; counted as "
+        "g_fewer_significant_digits_than_C, a violation only with G_RELATIVE_STRICT), negative '*' width or "
         "precision (the code reports an error where C left-justifies; model comparison only), "
         "%s of numbers other than a few literals (C06's subject)",
         "%x/%o of non-integers: the value is truncated toward zero first (Python needs an int)",
@@ -785,7 +808,7 @@ def run(rep):
     prepare()
     rng = rep.rng
     quick = rep.tier == "quick"
-    n_single, n_big, n_multi, n_obj, n_mal = (14000, 100, 3000, 2000, 2500) if quick else (150000, 600, 30000, 20000, 25000)
+    n_single, n_big, n_multi, n_obj, n_mal = (14000, 100, 3000, 2000, 2500) if quick else (400000, 1200, 80000, 50000, 60000)
     cases = corpus_cases()
     if not quick:
         # exhaustive small scope: every conversion x every flag subset x a few widths/precisions on fixed values
@@ -836,6 +859,7 @@ def run(rep):
         rep.count(c["key"], c["nontrivial"], sample=sample)
         if bad:
             rep.violation("fmt:" + c["key"][:300], bad, {"case": strip(c), "impl": a[:1000]})
+    rep.bump("g_fewer_significant_digits_than_C", len(G_SHORT))
     vlib.compare(rep, [strip(c) for c in cases], io, mo, label="std.format")
 
 
